@@ -16,7 +16,7 @@ from dfols.model import Model  # noqa: E402
 PROP = "C17"
 LEVEL = "exploration"
 EPS = float(np.finfo(float).eps)
-RULE = ("Stateful generation: operation sequences (<= 50 steps) over a real Model (n<=3, m<=3, npt n+1..2n+1, growing from "
+RULE = ("Values: small dyadic numbers plus +-1e3/+-1e6 (samples that cancel) and NaN/+-inf; regulariser weights 0.5, 2, 0.3, 0.7. Stateful generation: operation sequences (<= 50 steps) over a real Model (n<=3, m<=3, npt n+1..2n+1, growing from "
         "one point), rules change_point (allow_kopt_update=True, as every solver call site), add_new_sample, add_new_point, "
         "swap_points, shift_base, save_point (with fresh arrays, and with views of the incumbent's own data as the solver's soft restart "
         "does), get_final_results; slot indices are drawn as integers and reduced modulo the "
